@@ -664,6 +664,47 @@ def run(tier="quick", seed=0):
                         lst.sort(key=lambda t: t[:2])
                         del lst[MAX_PER_CLAUSE:]
 
+    # (G) a value too wide for a field of explicit length is refused at every point of the history: before any layout, after
+    #     it, for explicitly and automatically positioned fields, at top level and in a scope
+    for L in (8, 16):
+        for length in (1, 2, 3, 7):
+            for start in (None, 0, 4):
+                for scoped in (False, True):
+                    if start is not None and start + length > L - 1:
+                        continue            # (would not fit below the selector bit: not a valid definition)
+                    for when in ("before_layout", "after_layout"):
+                        ev += 1
+                        layers["G"] = layers.get("G", 0) + 1
+                        distinct.add(("G", L, length, start, scoped, when))
+                        bf = bitfield_mod.BitField(L)
+                        calls = ["bf = BitField(%d)" % L]
+                        try:
+                            target = bf
+                            if scoped:
+                                bf.add_field("sel", length=1, start_at=L - 1)
+                                target = bf(sel=1)
+                                calls.append("bf.add_field('sel', length=1, start_at=%d); scope = bf(sel=1)" % (L - 1))
+                            target.add_field("f", length=length, start_at=start)
+                            calls.append("scope.add_field('f', length=%d, start_at=%r)" % (length, start))
+                            if when == "after_layout":
+                                bf.assign_fields()
+                                calls.append("bf.assign_fields()")
+                            target(f=(1 << length) - 1)
+                            try:
+                                target(f=1 << length)
+                                refused = False
+                            except ValueError:
+                                refused = True
+                        except Exception as e:      # noqa
+                            refused = "%s: %s" % (type(e).__name__, e)
+                        if refused is not True:
+                            lst = found.setdefault("field_too_narrow", [])
+                            lst.append(((1, L, length, 0), ev, {"id": "G_%d" % ev, "clause": "field_too_narrow",
+                                                               "why": ("a %d-bit field accepted the value %d (%s)" % (length, 1 << length, when)) if refused is False else "unexpected " + refused,
+                                                               "inputs": {"calls": calls + ["scope(f=%d)" % (1 << length)]}}))
+                            lst.sort(key=lambda t: t[:2])
+                            del lst[MAX_PER_CLAUSE:]
+
     viol = []
     order = sorted(found, key=lambda c: found[c][0][:2])
     for rank in range(MAX_PER_CLAUSE):      # the smallest input of every clause first, then the second smallest
@@ -683,7 +724,7 @@ def run(tier="quick", seed=0):
                      "refused, success clause (no explicit start, single layout, co-present widths sum <= L => assign_fields succeeds). Layers %r: A exhaustive numerics for 1-2 fields "
                      "(start 0..L - for one field -2..L -, lengths/widths 1..3, 1..L+1 for one field); B every structure x order x explicit/automatic mode for 3 (and %s 4) fields with drawn numerics, L in 4..8 "
                      "(7%% 32/64); C every tag placement over every structure; D every all-automatic structure with widths 1..2 in the exactly-filled and one-bit-larger bit field, plus "
-                     "32/64-bit fields filled to the last bit; E all-automatic 5-field structures (inner widths 1..2, exactly filled; a failure of the success clause is finding D15 only for the inputs listed in known_findings_data/c08_first_fit.json); F scopes that fix any subset of two independent selector fields a (1 bit), b (2 bits): 1-3 further automatic fields (quick: an eighth of the 3-field cases), exactly filled and one bit larger. non-trivial = laid out with >= 2 complete assignments compared, or rejected; "
+                     "32/64-bit fields filled to the last bit; E all-automatic 5-field structures (inner widths 1..2, exactly filled; a failure of the success clause is finding D15 only for the inputs listed in known_findings_data/c08_first_fit.json); G values one too wide for fields of explicit length, before and after layout, positioned or not, scoped or not; F scopes that fix any subset of two independent selector fields a (1 bit), b (2 bits): 1-3 further automatic fields (quick: an eighth of the 3-field cases), exactly filled and one bit larger. non-trivial = laid out with >= 2 complete assignments compared, or rejected; "
                      "outcomes %r" % (MAX_ASSIGNMENTS, layers, "every" if thorough else "a seeded 20% of", stats)),
             "bound": "<= 4 fields (5 in the all-automatic layer E), depth <= 3, scope values 0/1, bit-field lengths 4..8 and 32/48/64 (layers D/E: the exactly filled length, 1..10), explicit lengths / automatic widths 1..3 (up to L for single fields and long bit fields)",
             "exhaustive": False, "label": "bounded", "samples": samples, "violations": viol, "seconds": round(secs, 2)}
